@@ -13,7 +13,7 @@ from ..seeds import H
 from ..simfs import SimCrash, SimBudgetExceeded, ROOT
 from . import geo_build
 
-LOW = ('ADD_NODE', 'DEL_NODE', 'ADD_COL', 'DEL_COL', 'DEL_CON', 'ADD_CON', 'ADD_LAYER',
+LOW = ('ADD_NODE', 'DEL_NODE', 'ADD_COL', 'ADD_COL_DUP', 'DEL_COL', 'DEL_CON', 'ADD_CON', 'ADD_LAYER',
        'DEL_LAYER', 'RENAME_LAYER', 'ADD_WELL', 'DEL_WELL', 'REFRESH')
 XHIGH = ('XREFINE', 'XSPLIT', 'XDECOMP', 'XREDUCE', 'XREFLAY', 'XSETSURF', 'XRENCOL')
 HIGH = XHIGH + ('RENAME_COL', 'SPLIT', 'REFINE', 'REFINE_LAYERS', 'DECOMPOSE', 'REDUCE', 'CHECK_FIX',
@@ -26,7 +26,7 @@ REFRESHING = XHIGH + ('XINIT', 'INIT', 'REFRESH', 'RENAME_LAYER', 'RENAME_COL', 
               'FIT_SURFACE', 'SET_OPTION', 'PERSIST')
 # ops that change no name, column, connection, layer or surface (lists stay as fresh as they were)
 NEUTRAL = ('TRANSLATE', 'ROTATE', 'ADD_WELL', 'DEL_WELL', 'ADD_NODE', 'DEL_NODE', 'DEL_ORPHANS',
-           'EDIT_OTHER')
+           'EDIT_OTHER', 'ADD_COL_DUP')
 
 
 def my_fix(name):
@@ -748,6 +748,17 @@ class GeoMachine(Machine):
             geo.identify_neighbours()
         self.call(go, 'add_column')
 
+    def op_ADD_COL_DUP(self, ch):
+        """add_column with a name already in use is documented to add nothing."""
+        geo, mg = self.geo, self.mg
+        if len(geo.columnlist) < 2:
+            return False
+        a = geo.columnlist[ch[0] % len(geo.columnlist)]
+        b = geo.columnlist[(ch[0] + 1 + ch[1] % (len(geo.columnlist) - 1)) % len(geo.columnlist)]
+        dup = mg.column(a.name, list(b.node), surface=b.surface)
+        self.call(lambda: geo.add_column(dup), 'add_column(existing name)')
+        self.ctx.probes['add_column_existing_name'] += 1
+
     def op_DEL_COL(self, ch):
         geo = self.geo
         if len(geo.columnlist) < 2:
@@ -803,7 +814,7 @@ class GeoMachine(Machine):
         geo = self.geo
         if len(geo.layerlist) < 2:
             return False
-        lay = geo.layerlist[1 + ch[0] % (len(geo.layerlist) - 1)]
+        lay = geo.layerlist[ch[0] % len(geo.layerlist)]        # the atmosphere layer included
         L = geo.layername_length
         for k in range(50):
             new = ('%s' % 'zyxwvu'[(ch[1] + k) % 6] + '%d' % ((ch[2] + k) % 10)).rjust(L)[-L:]
